@@ -292,54 +292,88 @@ def check_payload_dispatch(ctx, rule="WIRE-PD"):
     remainder starts (the declared payload length)."""
     F, R = ctx.facts, ctx.report
     names = ["input", "verbose", "payload_length", "arg_cnt", "msg_type"]
-    eng, outs = lib_parse.standalone(ctx, PAY, names=names)
-    if eng is None:
+    b = F.body(PAY)
+    if b is None:
         R.violation("ANCHOR", "missing|" + PAY, "anchor function %s not found" % PAY, kind="ANCHOR-MISSING")
         return
-    b = F.body(PAY)
     fl, ln = b["span"]["f"], b["span"]["l"]
     seen = {}
     undecided = 0
-    for st, rem, val in ok_exits(eng, outs):
-        verb = None
-        mts = None
-        for k in st.key:
-            if k[0] == "sym" and k[1] == "verbose":
-                verb = k[2]
-            if k[0] == "variant" and k[1] == "msg_type" and k[2] == "None":
-                mts = ("-",)
-            if k[0] == "variant" and k[1] == "msg_type.Some.0":
-                mts = tuple(k[2].split("|"))
-        kind = opt(eng, val)
-        if verb is None or kind is None:
-            undecided += 1
-            continue
-        if mts is None:
-            mts = ("-",) + MSG_TYPES
-        kname, _ = kind
-        fs = val.variants[0][1]
-        for mt in mts:
-            seen.setdefault((verb, mt), set()).add(kname)
-        # layout of the two non-verbose payloads
-        plen = Lin.sym("payload_length")
-        if kname == "NonVerbose":
-            ok = isinstance(fs[0], Int) and fs[0].lin == rd(0, 4, "T") and is_copy_of(fs[1], Lin.const(4)) and fs[1].segs[0][3] == plen.sub(Lin.const(4)) \
-                and isinstance(rem, Slice) and rem.base == "input" and rem.off == plen
-            if ok:
-                R.obligation(rule, "%s|layout|NonVerbose|%s" % (PAY, "/".join(mts)), "discharged", "message id = u32 @0 in message byte order, payload = input[4..payload_length), remainder @payload_length")
-            else:
-                R.violation(rule, "%s|layout|NonVerbose" % PAY, "a non-verbose payload is decoded as id=%s payload=%s remainder=%s; the format prescribes a 32-bit message id at offset 0 in the message byte order, the payload behind it up to the declared payload length, and the next message there" % (
-                    getattr(fs[0], "lin", fs[0]), getattr(fs[1], "segs", fs[1]), rem), function=PAY, file=fl, line=ln)
-        elif kname == "ControlMsg":
-            idv = fs[0]
-            idsrc = repr(idv)
-            ok = ("rd[input@0:1:1]" in idsrc or (isinstance(idv, Enum) and all(not f for _, f in idv.variants))) and is_copy_of(fs[1], Lin.const(1)) and fs[1].segs[0][3] == plen.sub(Lin.const(1)) \
-                and isinstance(rem, Slice) and rem.base == "input" and rem.off == plen
-            if ok:
-                R.obligation(rule, "%s|layout|ControlMsg|%s" % (PAY, repr(st.key[-1])), "discharged", "service id = byte @0, parameters = input[1..payload_length), remainder @payload_length")
-            else:
-                R.violation(rule, "%s|layout|ControlMsg" % PAY, "a control payload is decoded as id=%s parameters=%s remainder=%s; the format prescribes the service id in the first byte, the parameters behind it up to the declared payload length" % (
-                    idsrc[:120], getattr(fs[1], "segs", fs[1]), rem), function=PAY, file=fl, line=ln)
+    from engine.state import State
+    from engine.values import Bool as _Bool
+    # the rule constructs the input of each (VERB, message type) row itself, so the verdict does not depend on where —
+    # in dlt_payload or in a helper it dispatches to — the code branches on them
+    for verb0 in (True, False):
+        for mt0 in ("-",) + MSG_TYPES:
+            eng = lib_parse.mk_engine(F, cuts=[c for c in lib_parse.CUTS if c != PAY])
+            st0 = State()
+            args = eng.symbolic_args(b, names=names)
+            if len(args) != 5:
+                R.violation(rule, PAY + "|signature", "dlt_payload takes %d arguments (expected input, verbose, payload_length, arg_cnt, msg_type)" % len(args), function=PAY, kind="UNRECOGNISED-SHAPE")
+                return
+            args[1] = _Bool(("const", verb0))
+            mv = eng.M.force(st0, args[4])
+            ok_in = isinstance(mv, Enum)
+            if ok_in:
+                if mt0 == "-":
+                    keep = tuple((vi, fs) for vi, fs in mv.variants if eng.T.variant_name(mv.ty, vi) == "None")
+                else:
+                    keep = []
+                    for vi, fs in mv.variants:
+                        if eng.T.variant_name(mv.ty, vi) != "Some" or not fs:
+                            continue
+                        inner = fs[0]
+                        if isinstance(inner, Top):
+                            inner = eng.M.force(st0, inner)
+                        if isinstance(inner, Enum):
+                            iv = tuple((j, jf) for j, jf in inner.variants if eng.T.variant_name(inner.ty, j) == mt0)
+                            if iv:
+                                keep.append((vi, (Enum(inner.ty, iv, inner.name),)))
+                    keep = tuple(keep)
+                ok_in = bool(keep)
+                if ok_in:
+                    args[4] = Enum(mv.ty, keep, mv.name)
+            if not ok_in:
+                R.violation(rule, "%s|input|verb=%d|type=%s" % (PAY, int(verb0), mt0), "cannot construct a dlt_payload input with VERB=%d and message type %s" % (verb0, mt0), function=PAY, kind="UNRECOGNISED-SHAPE")
+                continue
+            try:
+                outs = eng.call_path(PAY, args, st=st0)
+            except Exception as ex:
+                R.notes.append("%s: dlt_payload could not be analysed for VERB=%d type=%s (%r) (not decided)" % (rule, verb0, mt0, ex))
+                undecided += 1
+                continue
+            for st, rem, val in ok_exits(eng, outs):
+                verb, mts = verb0, (mt0,)
+                kinds = [eng.T.variant_name(val.ty, vi) for vi, _ in val.variants] if isinstance(val, Enum) else None
+                if not kinds:
+                    undecided += 1
+                    continue
+                for kname in kinds:
+                    seen.setdefault((verb, mt0), set()).add(kname)
+                if len(kinds) != 1:
+                    continue
+                kname = kinds[0]
+                fs = val.variants[0][1]
+                # layout of the two non-verbose payloads
+                plen = Lin.sym("payload_length")
+                if kname == "NonVerbose":
+                    ok = isinstance(fs[0], Int) and fs[0].lin == rd(0, 4, "T") and is_copy_of(fs[1], Lin.const(4)) and fs[1].segs[0][3] == plen.sub(Lin.const(4)) \
+                        and isinstance(rem, Slice) and rem.base == "input" and rem.off == plen
+                    if ok:
+                        R.obligation(rule, "%s|layout|NonVerbose|%s" % (PAY, "/".join(mts)), "discharged", "message id = u32 @0 in message byte order, payload = input[4..payload_length), remainder @payload_length")
+                    else:
+                        R.violation(rule, "%s|layout|NonVerbose" % PAY, "a non-verbose payload is decoded as id=%s payload=%s remainder=%s; the format prescribes a 32-bit message id at offset 0 in the message byte order, the payload behind it up to the declared payload length, and the next message there" % (
+                            getattr(fs[0], "lin", fs[0]), getattr(fs[1], "segs", fs[1]), rem), function=PAY, file=fl, line=ln)
+                elif kname == "ControlMsg":
+                    idv = fs[0]
+                    idsrc = repr(idv)
+                    ok = ("rd[input@0:1:1]" in idsrc or (isinstance(idv, Enum) and all(not f for _, f in idv.variants))) and is_copy_of(fs[1], Lin.const(1)) and fs[1].segs[0][3] == plen.sub(Lin.const(1)) \
+                        and isinstance(rem, Slice) and rem.base == "input" and rem.off == plen
+                    if ok:
+                        R.obligation(rule, "%s|layout|ControlMsg|%s" % (PAY, repr(st.key[-1])), "discharged", "service id = byte @0, parameters = input[1..payload_length), remainder @payload_length")
+                    else:
+                        R.violation(rule, "%s|layout|ControlMsg" % PAY, "a control payload is decoded as id=%s parameters=%s remainder=%s; the format prescribes the service id in the first byte, the parameters behind it up to the declared payload length" % (
+                            idsrc[:120], getattr(fs[1], "segs", fs[1]), rem), function=PAY, file=fl, line=ln)
     n = 0
     for verb in (True, False):
         for mt in ("-",) + MSG_TYPES:
